@@ -103,6 +103,9 @@ func (m *ModelServer) ListPublications(_ context.Context, request *traits.ListPu
 	if err := decodePageToken(request.PageToken, pageToken); err != nil {
 		return nil, err
 	}
+	if err := validatePageSize(request.GetPageSize()); err != nil {
+		return nil, err
+	}
 
 	lastKey := pageToken.GetLastResourceName() // the key() of the last item we sent
 	pageSize := capPageSize(int(request.GetPageSize()))
